@@ -11,7 +11,8 @@ from . import carving_space
 
 PROP = "C12"
 
-CLASS_LABELS = [[0, 1, 2], ["a", "b", "c"], [2, 10, 1], ["10", "9", "b"]]
+# the omitted class is the first one in STRING order: [2, 10, 33] -> '10' (numerically 2), [-2, -1, 0] -> '-1' (numerically -2)
+CLASS_LABELS = [[0, 1, 2], ["a", "b", "c"], [2, 10, 33], ["10", "9", "b"], [-2, -1, 0], [2, 10, 1]]
 
 
 def eq_val(a, b):
@@ -110,7 +111,7 @@ def enumerate_cases(tier, seed):
         for cells in tabs:
             k = len(cells)
             for ci, labels in enumerate(CLASS_LABELS):
-                if tier == "quick" and k == 3 and ci not in (0, 2):
+                if tier == "quick" and (k == 3 and ci not in (0, 2) or ci >= 5):
                     continue
                 for cfg in cfgs if (k <= 2 or tier != "quick") else cfgs[:2]:
                     cases.append({"carver": "multiclass", "kind": kind, "cells": [list(c) for c in cells], "nan": None, "dev": None, "cfg": cfg, "seed": seed, "classes": labels})
